@@ -850,6 +850,8 @@ class AExec:
             c = self.ev(st.test)
             if isinstance(c, DataBool):
                 c = self.data_bool(c, st.lineno)
+            if is_pyint(c) or (isinstance(c, (tuple, list)) and not any(isinstance(x, str) for x in c)):
+                c = bool(c)                          # Python truthiness of a concrete int / sequence
             if not isinstance(c, bool):
                 raise TranslateError(f"line {st.lineno}: branch condition is not concrete")
             self.run(st.body if c else st.orelse)
@@ -945,7 +947,7 @@ class AExec:
             return AExec({}, self.cfg, self.mod).ev(self.mod["consts"][e.id])
         if e.id == "pi":
             return Sc(("pi",))
-        if e.id in ("torch", "math", "settings", "KroneckerProductLinearOperator", "Tensor"):
+        if e.id in ("torch", "math", "settings", "KroneckerProductLinearOperator", "Tensor", "to_linear_operator", "to_dense"):
             return Marker(e.id)
         raise TranslateError(f"line {e.lineno}: unknown name {e.id}")
 
@@ -1315,6 +1317,8 @@ class AExec:
                 return self.mask_for(args[0], lineno)
             if n == "KroneckerProductLinearOperator" and len(args) == 2:
                 return Kron(as_ten(args[0]), as_ten(args[1]))
+            if n in ("to_linear_operator", "to_dense") and len(args) == 1 and isinstance(args[0], (Ten, Kron)):
+                return args[0]                      # a LinearOperator wrapper is read by its dense meaning
         raise TranslateError(f"line {lineno}: call outside the vocabulary")
 
     def mask_for(self, x, lineno):
@@ -1396,6 +1400,12 @@ class AExec:
             raise TranslateError(f"line {lineno}: self.{meth}(…) outside the vocabulary")
         if isinstance(obj, DataBool) and meth == "all" and not args:
             return obj
+        if isinstance(obj, Callback) and meth == "forward":
+            return self.callback(obj, args, kw, lineno)
+        if isinstance(obj, DiagView) and meth != "fill_":
+            obj = obj.ten
+        if isinstance(obj, Kron) and meth != "to_dense":
+            obj = self.method(obj, "to_dense", [], {}, lineno)
         if isinstance(obj, Kron) and meth == "to_dense":
             A, B = obj.a, obj.b
             return Ten([imul(A.shape[0], B.shape[0]), imul(A.shape[1], B.shape[1])],
@@ -1785,6 +1795,32 @@ def translate(repo):
     split_shuffle(ret, "matern52Grad", "`Matern52KernelGrad.forward` (full matrix, x1 is not x2; `outer`, the four blocks written "
                   "into `K` by slice assignment through views / transposes / repeats / a Kronecker product and in-place `mul_` / "
                   "`sub_` — all executed on index functions)")
+
+    # ---------------- MultitaskKernel: Kronecker layout of the full matrix and of the diag path (matrix-level)
+    modt = load_module(repo, "gpytorch/kernels/multitask_kernel.py")
+    TT = Poly.of("T")
+    tsym = dict(NSYM, T="T")
+    tsig = "(data : List α → List α → α) (n1 n2 d T : Nat) (X1 X2 : List (List α)) (KT : List (List α))"
+    for tag, diag in (("Matrix", False), ("Diag", True)):
+        cfg = {"diag": diag, "x1_eq_x2": diag, "matrix": True}
+        x1, x2 = inputs(cfg, D)
+        task = SelfObj({"covar_matrix": param("KT", [TT, TT], (0, 1))}, {})
+        so = SelfObj({"task_covar_module": task, "data_covar_module": Callback("data"), "num_tasks": TT},
+                     modt["classes"]["MultitaskKernel"])
+        fn = modt["classes"]["MultitaskKernel"]["forward"]
+        ret = AExec({}, cfg, modt).call_fn(fn, [], {"x1": x1, "x2": x2, "diag": diag}, selfobj=so)
+        if isinstance(ret, Kron):
+            ret = AExec({}, cfg, modt).method(ret, "to_dense", [], {}, 0)
+        if isinstance(ret, DiagView):
+            ret = ret.ten
+        wantt = [IX(N1 * TT)] if diag else [IX(N1 * TT), IX(N2 * TT)]
+        if not isinstance(ret, Ten) or ret.shape != wantt:
+            raise TranslateError(f"MultitaskKernel.forward(diag={diag}) returns shape {getattr(ret, 'shape', None)}, expected {wantt}")
+        idx = [("iv", "r")] if diag else [("iv", "r"), ("iv", "c")]
+        out.append(f"/-- `MultitaskKernel.forward(diag={diag})`: entry {'r of the returned diagonal' if diag else '(r, c) of the returned matrix'} "
+                   "(`data` = the data kernel on two rows, `KT` = the task covariance matrix; Kronecker product"
+                   f"{' and its diagonal' if diag else ''} executed on index functions) -/\n"
+                   f"def multitask{tag} {tsig} {'(r : Nat)' if diag else '(r c : Nat)'} : α :=\n  {lsc(ret.at(idx), tsym)}\n\n")
 
     out.append("end Gen.KernelAxes\n")
     return "".join(out)
